@@ -35,11 +35,41 @@ theorem action_perm_invariant_gen (q : Req) (draw : Rule → Nat) {sort : List R
   rw [gen_action_sort_independent q draw hs hn, gen_action_sort_independent q draw hs (hn.perm h)]
   exact action_perm_invariant q draw h hn
 
-/-- … hence every observation on it. -/
-theorem observations_perm_invariant_gen (q : Req) (draw : Rule → Nat) (allowLog : Bool) (c : Nat) (ops : List Op)
-    {R R' : List Rule} (h : R.Perm R') (hn : NodupIds R) :
-    runOps allowLog c (Rio.Consts.genFromRoutesRule (frr q draw) genMerge Action.empty sortRules R) ops =
-      runOps allowLog c (Rio.Consts.genFromRoutesRule (frr q draw) genMerge Action.empty sortRules R') ops := by
-  rw [action_perm_invariant_gen q draw sortRules_lawful h hn]
+/-- … hence every observation on it: any lawful sort, any sequence of observer calls with a response code PER CALL
+(`runOpsC`, what a proxy does; `runOps` with one code for the whole sequence is the special case). -/
+theorem observations_perm_invariant_gen (q : Req) (draw : Rule → Nat) (allowLog : Bool) (ops : List (Op × Nat))
+    {sort : List Rule → List Rule} (hs : LawfulSort sort) {R R' : List Rule} (h : R.Perm R') (hn : NodupIds R) :
+    runOpsC allowLog (Rio.Consts.genFromRoutesRule (frr q draw) genMerge Action.empty sort R) ops =
+      runOpsC allowLog (Rio.Consts.genFromRoutesRule (frr q draw) genMerge Action.empty sort R') ops := by
+  rw [action_perm_invariant_gen q draw hs h hn]
+
+/-! ### Non-vacuity: the three-rule tie of Props/C11.lean, for the translated code -/
+
+private def mk' (id : RuleId) (rank : Nat) (status : Option Nat) : Rule :=
+  { id := id, rank := rank, statusCode := status, target := none, responseStatusCodes := none,
+    excludeResponseStatusCodes := none, sampling := none, headerFilters := none, bodyFilters := none,
+    logOverride := none, reset := none, stop := none, redirectUnitId := none,
+    configurationLogUnitId := none, targetHash := none }
+
+/-- a rank tie and conflicting status codes: the hypotheses hold, the two match vectors are different lists, and the
+translated `from_routes_rule` (with the model's sort) computes the same action from both -/
+example :
+    let R := [mk' [97] 1 (some 301), mk' [98] 1 (some 302), mk' [99] 2 (some 410)]
+    let R' := [mk' [99] 2 (some 410), mk' [98] 1 (some 302), mk' [97] 1 (some 301)]
+    R.Perm R' ∧ NodupIds R ∧ R ≠ R' ∧
+      Rio.Consts.genFromRoutesRule (frr ⟨none, none⟩ (fun _ => 1)) genMerge Action.empty sortRules R =
+        Rio.Consts.genFromRoutesRule (frr ⟨none, none⟩ (fun _ => 1)) genMerge Action.empty sortRules R' := by
+  intro R R'
+  have hp : R.Perm R' := by decide
+  have hn : NodupIds R := by unfold NodupIds; decide
+  exact ⟨hp, hn, by decide, action_perm_invariant_gen _ _ sortRules_lawful hp hn⟩
+
+/-- and the translated loop does compute something there (on the sorted list, which the kernel can evaluate): the
+rank-2 rule is applied first, the tie is resolved by id, the last status wins -/
+example :
+    (Rio.Consts.genFromRoutesRule (frr ⟨none, none⟩ (fun _ => 1)) genMerge Action.empty id
+      [mk' [99] 2 (some 410), mk' [98] 1 (some 302), mk' [97] 1 (some 301)]).statusCodeUpdate.map (·.statusCode) =
+      some 301 := by
+  decide +kernel
 
 end Rio.C11
